@@ -1,9 +1,10 @@
 (** Extraction of the mx engine (models + boolean spec checkers) to OCaml.
     Directives: ExtrOcamlBasic only (bool, option, unit, prod, list, sumbool, sumor). *)
 From Coq Require Import ExtrOcamlBasic.
-From Qv Require Import Common.Bytes Model.Mx Model.MxRoute Model.MxDns Spec.MxSpec Spec.MxRouteSpec Spec.MxDnsSpec.
+From Qv Require Import Common.Bytes Model.Mx Model.MxRoute Model.MxDns Model.MxRouteKeys Spec.MxSpec Spec.MxRouteSpec Spec.MxDnsSpec Spec.MxRouteKeysSpec.
 Extraction "m.ml" sortmx tryconn_calls filter_my_ips qremote_targets
   spec_ok_C20_sort pre_C20_sort spec_ok_C20_try pre_C20_try spec_ok_C20_filter pre_C20_filter
   spec_ok_C20_targets spec_ok_C20_allme
   smtproute spec_ok_C20_route pre_C20_route
-  ask_dnsmx qremote_main spec_ok_C20_dnsmx spec_ok_C20_main pre_C20_main plain_table zero_ident.
+  ask_dnsmx qremote_main spec_ok_C20_dnsmx spec_ok_C20_main pre_C20_main plain_table zero_ident
+  smtproute_x qremote_main_x observe spec_ok_C20_route_x pre_C20_route_x target_literal spec_ok_C20_main_x pre_C20_main_x.
